@@ -46,5 +46,12 @@ func (c *ConsensusParameterChanges) SanityCheck() error {
 		c.VotingPowerDistribution == nil {
 		return fmt.Errorf("consensus parameter changes should not be empty")
 	}
+	// Same bounds as the ones enforced for the genesis parameters.
+	if c.MinValidators != nil && *c.MinValidators <= 0 {
+		return fmt.Errorf("minimum number of validators should be positive")
+	}
+	if c.MaxValidators != nil && *c.MaxValidators <= 0 {
+		return fmt.Errorf("maximum number of validators should be positive")
+	}
 	return nil
 }
